@@ -129,11 +129,11 @@ theorem result_is_final (_h : Reachable w s) {l : Label} {s' : State} (hs : Step
 /-! ### the reference counter: who holds what, the core is freed exactly once and never touched afterwards -/
 
 /-- every reference is accounted for: the promise's (3, released one by one around the last callback), those of the
-    observers (`holders` = Σ refs, see `holders_is_sum`), of submitted executor jobs and of When-style callbacks
-    that sit in a list -/
+    observers (`holders` = Σ refs, see `holders_is_sum`), of submitted executor jobs and of When-style callbacks —
+    while they sit in a list, and after they were entered until their combinator has called `Retire()` -/
 theorem count_accounts (h : Reachable w s) :
     s.count = promRefs s.fpc + s.holders + s.jobs.length + s.jobsRun.length
-      + retCnt (wordList s.word) + retCnt (walkList s.fpc) := (inv_reachable h).r.cnt
+      + retCnt (wordList s.word) + retCnt (walkList s.fpc) + s.rets.length + s.retsLd.length := (inv_reachable h).r.cnt
 
 theorem holders_is_sum (h : Reachable w s) : s.holders = holdSum s.obs s.n := (inv_reachable h).z.sum
 
@@ -172,7 +172,9 @@ theorem no_use_after_free (h : Reachable w s) (hf : 0 < s.freed) : ∀ l s', ¬ 
   | fTargetDec c rest d hp hk => rw [hp] at hpr; revert hpr; cases d <;> simp
   | fForward c rest d n hp hk hn => rw [hp] at hpr; revert hpr; cases d <;> simp
   | fForwardPost c rest d hp hk => rw [hp] at hpr; revert hpr; cases d <;> simp
-  | fRetire c rest d n hp hk => rw [hp] at hpr; revert hpr; cases d <;> simp
+  | fEnter c rest d hp hk hf => rw [hp] at hpr; revert hpr; cases d <;> simp
+  | rRefLoad c hm => have : s.rets = [] := List.eq_nil_of_length_eq_zero (by omega); rw [this] at hm; simp at hm
+  | rRetire c n hm => have : s.retsLd = [] := List.eq_nil_of_length_eq_zero (by omega); rw [this] at hm; simp at hm
   | fDec k hp => rw [hp] at hpr; simp at hpr
   | jInvoke c hm => rw [hj] at hm; simp at hm
   | jDec c hm => rw [hjr] at hm; simp at hm
@@ -187,8 +189,7 @@ theorem no_use_after_free (h : Reachable w s) (hf : 0 < s.freed) : ∀ l s', ¬ 
   | oIncRef t c hp hk => have := hidle t; rw [hp] at this; cases this
   | oSubmit t c hp => have := hidle t; rw [hp] at this; cases this
   | oForward t c hp hk => have := hidle t; rw [hp] at this; cases this
-  | oRefLoad t c hp hk => have := hidle t; rw [hp] at this; cases this
-  | oRetire t c n hp => have := hidle t; rw [hp] at this; cases this
+  | oEnter t c hp hk => have := hidle t; rw [hp] at this; cases this
   | oWaited t c rest hp ht hf => have := hidle t; rw [hp] at this; cases this
   | oGetc t c rest hp ht hf => have := hidle t; rw [hp] at this; cases this
   | oGetRef t c rest hp ht hf => have := hidle t; rw [hp] at this; cases this
@@ -207,58 +208,94 @@ theorem quiescent_released (h : Reachable w s) (hq : ∀ l s', ¬ Step s l s') (
     s.count = 0 ∧ s.freed = 1 := by
   have hi := inv_reachable h
   obtain ⟨hf, hj, hjr, _, _, _⟩ := quiescent_complete h hq
+  obtain ⟨hrt, hrl⟩ := rets_nil_of_quiescent hq
   have hw : s.word = .result := hi.a.word_iff.mpr (by rw [hf]; simp)
   have hcnt := hi.r.cnt
   have hh : s.holders = 0 := by rw [hi.z.sum]; exact holdSum_zero _ _ hr
-  rw [hf, hj, hjr, hw, hh] at hcnt
+  rw [hf, hj, hjr, hw, hh, hrt, hrl] at hcnt
   simp at hcnt
   exact ⟨hcnt, (freed_iff_count_zero h).mpr hcnt⟩
 
 /-! ### moving the value out -/
 
-/-- `Get() &&` / `Retire()` on an observer's thread move the value out only when the counter they read was 1, and then
-    that observer's is the only reference in existence: the promise has released all three of its references, no
-    executor job and no When-style callback holds one, and **no other observer holds a SharedFuture** -/
+/-- `Get() &&` moves the value out only when the counter it read was 1, and then that observer's is the only reference
+    in existence: the promise has released all three of its references, no executor job holds one, no combinator
+    callback is waiting in a list or for its `Retire()`, and **no other observer holds a SharedFuture** -/
 theorem observer_moves_only_as_sole_owner (h : Reachable w s) {l : Label} {s' : State} (hs : Step s l s') {t : Nat}
-    (hl : (∃ r, l = .oGot t r true) ∨ (∃ c r n, l = .oRetire t c r true n)) :
-    s.count = 1 ∧ s.fpc = .dec 0 ∧ s.jobs = [] ∧ s.jobsRun = [] ∧ (s.obs t).refs = 1 ∧
+    (hl : ∃ r, l = .oGot t r true) :
+    s.count = 1 ∧ s.fpc = .dec 0 ∧ s.jobs = [] ∧ s.jobsRun = [] ∧ s.rets = [] ∧ s.retsLd = [] ∧ (s.obs t).refs = 1 ∧
     ∀ t', t' ≠ t → (s.obs t').refs = 0 := by
   have hi := inv_reachable h
-  have key : s.count = 1 → 0 < (s.obs t).refs →
-      s.count = 1 ∧ s.fpc = .dec 0 ∧ s.jobs = [] ∧ s.jobsRun = [] ∧ (s.obs t).refs = 1 ∧
-      ∀ t', t' ≠ t → (s.obs t').refs = 0 := by
-    intro hc hpos
-    have hcnt := hi.r.cnt
-    have hle := hi.z.le t
-    rw [hc] at hcnt
-    have hpr : promRefs s.fpc = 0 := by omega
-    have hj : s.jobs = [] := List.eq_nil_of_length_eq_zero (by omega)
-    have hjr : s.jobsRun = [] := List.eq_nil_of_length_eq_zero (by omega)
-    have hfp : s.fpc = .dec 0 := by
-      cases hp : s.fpc with
-      | start => rw [hp] at hpr; simp at hpr
-      | walk l d st => rw [hp] at hpr; revert hpr; cases d <;> simp
-      | dec n => rw [hp] at hpr; simp at hpr; rw [hpr]
-    refine ⟨hc, hfp, hj, hjr, by omega, ?_⟩
-    intro t' hne
-    have := hi.z.two hne
-    omega
+  obtain ⟨r, hl⟩ := hl
   cases hs with
   | oGot t' n hp =>
-      rcases hl with ⟨r, hl⟩ | ⟨c, r, n', hl⟩
-      · injection hl with h1 h2 h3
-        subst h1
-        have hn : n = 1 := by simpa using h3
-        exact key ((hi.r.o_got t' n hp).2 hn) (hi.z.busy t' (by rw [hp]; simp))
-      · cases hl
-  | oRetire t' c' m hp =>
-      rcases hl with ⟨r, hl⟩ | ⟨c, r, n', hl⟩
-      · cases hl
-      · injection hl with h1 h2 h3 h4 h5
-        subst h1
-        have hn : m = 1 := by simpa using h4
-        exact key ((hi.r.o_refd t' c' m hp).2 hn) (hi.z.busy t' (by rw [hp]; simp))
-  | _ => rcases hl with ⟨r, hl⟩ | ⟨c, r, n', hl⟩ <;> cases hl
+      injection hl with h1 h2 h3
+      subst h1
+      have hn : n = 1 := by simpa using h3
+      have hc := (hi.r.o_got t' n hp).2 hn
+      have hpos := hi.z.busy t' (by rw [hp]; simp)
+      have hcnt := hi.r.cnt
+      have hle := hi.z.le t'
+      rw [hc] at hcnt
+      have hpr : promRefs s.fpc = 0 := by omega
+      have hfp : s.fpc = .dec 0 := by
+        cases hp : s.fpc with
+        | start => rw [hp] at hpr; simp at hpr
+        | walk l d st => rw [hp] at hpr; revert hpr; cases d <;> simp
+        | dec n => rw [hp] at hpr; simp at hpr; rw [hpr]
+      refine ⟨hc, hfp, List.eq_nil_of_length_eq_zero (by omega), List.eq_nil_of_length_eq_zero (by omega),
+        List.eq_nil_of_length_eq_zero (by omega), List.eq_nil_of_length_eq_zero (by omega), by omega, ?_⟩
+      intro t'' hne
+      have := hi.z.two hne
+      omega
+  | _ => cases hl
+
+/-- `Retire()` — whenever after the entry, on whatever thread the combinator calls it — moves the value out only when the
+    counter it read was 1, and then the combinator's is the only reference in existence: promise done, no job, no other
+    combinator callback, **no observer holds a SharedFuture**.  In every other case it copies. -/
+theorem retire_moves_only_as_sole_owner (h : Reachable w s) {s' : State} {c : Cb} {r : Option Res} {mv : Bool} {n : Nat}
+    (hs : Step s (.rRetire c r mv n) s') (hmv : mv = true) :
+    s.count = 1 ∧ s.fpc = .dec 0 ∧ s.jobs = [] ∧ s.jobsRun = [] ∧ s.rets = [] ∧ s.retsLd.length = 1 ∧
+    ∀ t, (s.obs t).refs = 0 := by
+  have hi := inv_reachable h
+  cases hs with
+  | rRetire _ m hm =>
+      have hn : m = 1 := by simpa using hmv
+      have hc := (hi.r.ld_refd c m hm).2 hn
+      have hcnt := hi.r.cnt
+      have hlen : 0 < s.retsLd.length := List.length_pos_of_mem hm
+      rw [hc] at hcnt
+      have hpr : promRefs s.fpc = 0 := by omega
+      have hfp : s.fpc = .dec 0 := by
+        cases hp : s.fpc with
+        | start => rw [hp] at hpr; simp at hpr
+        | walk l d st => rw [hp] at hpr; revert hpr; cases d <;> simp
+        | dec n => rw [hp] at hpr; simp at hpr; rw [hpr]
+      refine ⟨hc, hfp, List.eq_nil_of_length_eq_zero (by omega), List.eq_nil_of_length_eq_zero (by omega),
+        List.eq_nil_of_length_eq_zero (by omega), by omega, ?_⟩
+      intro t; have := hi.z.le t; omega
+
+/-- in particular a `Retire()` made while the fulfiller has not finished (e.g. at once inside `Here`, as the Managed
+    strategies do) always copies -/
+theorem retire_before_fulfiller_done_copies (h : Reachable w s) {s' : State} {c : Cb} {r : Option Res} {mv : Bool} {n : Nat}
+    (hs : Step s (.rRetire c r mv n) s') (hp : s.fpc ≠ .dec 0) : mv = false := by
+  cases hmv : mv with
+  | false => rfl
+  | true => exact absurd (retire_moves_only_as_sole_owner h hs hmv).2.1 hp
+
+/-- `Retire()` returns the Result that was set -/
+theorem retire_returns_set (h : Reachable w s) : ∀ x ∈ s.retired, x.2.1 = some w.prod.res :=
+  (inv_reachable h).a.retired_val
+
+/-- a combinator callback retires only after it was entered, and it was entered only after the fulfilment -/
+theorem pending_retire_was_entered_after_set (h : Reachable w s) :
+    (∀ c ∈ s.rets, s.word = .result) ∧ (∀ x ∈ s.retsLd, s.word = .result) := by
+  have hi := (inv_reachable h).a
+  exact ⟨fun c hc => hi.word_iff.mpr (hi.rets_after c hc), fun x hx => hi.word_iff.mpr (hi.retsLd_after x hx)⟩
+
+/-- at quiescence no `Retire()` is pending -/
+theorem quiescent_no_pending_retire (_h : Reachable w s) (hq : ∀ l s', ¬ Step s l s') : s.rets = [] ∧ s.retsLd = [] :=
+  rets_nil_of_quiescent hq
 
 /-- the fulfiller (running a Connect/Share/Split target as the LAST callback) moves the value out only when the
     counter it read was 2 = the promise's own two remaining references: no observer holds a SharedFuture, no job and
@@ -273,7 +310,7 @@ theorem fulfiller_moves_only_without_holders (h : Reachable w s) {s' : State} {c
       have hlt : n < 3 := by simpa using hmv
       have hr := hi.r.f_refd c rest d n hp
       have hn2 : n = 2 := by omega
-      have hc := hr.2.2 hn2
+      have hc := hr.2 hn2
       have hcnt := hi.r.cnt
       have hne := hi.a.walk_ne _ _ _ hp
       have hd : d = true → rest = [] := by simpa using hne.2.1
@@ -292,15 +329,7 @@ theorem fulfiller_moves_only_without_holders (h : Reachable w s) {s' : State} {c
       refine ⟨hc, hj, hjr, by rw [hp]; rfl, ?_⟩
       intro t; have := hi.z.le t; omega
 
-/-- a When-style callback run by the fulfiller never moves (its own reference keeps the counter ≥ 3), and the
-    `if (ref == 1) caller.DecRef()` branch of `ResultCore::Impl` is dead when the caller is a shared core -/
-theorem fulfiller_retire_never_moves (h : Reachable w s) {s' : State} {c : Cb} {r : Option Res} {mv : Bool} {n : Nat}
-    (hs : Step s (.fRetire c r mv n) s') : mv = false := by
-  cases hs with
-  | fRetire _ rest d m hp hk =>
-      have := ((inv_reachable h).r.f_refd c rest d m hp).2.1 hk
-      simp; omega
-
+/-- the `if (ref == 1) caller.DecRef()` branch of `ResultCore::Impl` is dead when the caller is a shared core -/
 theorem target_never_sees_ref_one (h : Reachable w s) : ∀ l d, s.fpc ≠ .walk l d (.refd 1) ∧ s.fpc ≠ .walk l d .post := by
   intro l d
   refine ⟨?_, (inv_reachable h).r.f_post l d⟩
@@ -314,17 +343,16 @@ theorem target_never_sees_ref_one (h : Reachable w s) : ∀ l d, s.fpc ≠ .walk
 theorem no_read_after_moveout (h : Reachable w s) (hm : s.movedOut = true) {l : Label} {s' : State} (hs : Step s l s') :
     l.reads = false := by
   have hi := inv_reachable h
-  obtain ⟨hwalk, hstart, hj, hjr, _⟩ := hi.r.moved hm
+  obtain ⟨hwalk, hstart, hj, hjr, _, _, hrl⟩ := hi.r.moved hm
   have hobs : ∀ t, (s.obs t).pc ≠ .idle → False := fun t hne => hne (hi.r.moved_obs t hm (hi.z.busy t hne)).1
   cases hs with
   | fInvoke c rest d hp hk hf => exact absurd hp (hwalk _ _ _)
   | fForward c rest d n hp hk hn => exact absurd hp (hwalk _ _ _)
   | fForwardPost c rest d hp hk => exact absurd hp (hwalk _ _ _)
-  | fRetire c rest d n hp hk => exact absurd hp (hwalk _ _ _)
+  | rRetire c n hmem => rw [hrl] at hmem; simp at hmem
   | jInvoke c hmem => rw [hj] at hmem; simp at hmem
   | oInvoke t c hp hk => exact (hobs t (by rw [hp]; simp)).elim
   | oForward t c hp hk => exact (hobs t (by rw [hp]; simp)).elim
-  | oRetire t c n hp => exact (hobs t (by rw [hp]; simp)).elim
   | oGetc t c rest hp ht hf => exact (hobs t (by rw [hp]; simp)).elim
   | oGot t n hp => exact (hobs t (by rw [hp]; simp)).elim
   | oTouch t hp => exact (hobs t (by rw [hp]; simp)).elim
@@ -469,6 +497,24 @@ example : ∃ s, Reachable ⟨.drop, [[.attach .target, .drop]]⟩ s ∧ s.fired
   have h9 := validator_sound h8 (l := .fDec 2) (s' := _) rfl
   have h10 := validator_sound h9 (l := .fDec 1) (s' := _) rfl
   exact ⟨_, h10, rfl, rfl, rfl⟩
+
+/-- a combinator callback (Owned strategy): entered by the fulfiller's walk, `Retire()` only after the fulfiller has
+    finished — by then the combinator's is the last reference, so the value is moved and the core freed -/
+example : ∃ s, Reachable ⟨.set (.val 42), [[.attach .retire]]⟩ s ∧ s.fired = [(⟨0, 0, .retire⟩, some (.val 42))] ∧
+    s.retired = [(⟨0, 0, .retire⟩, some (.val 42), true)] ∧ s.movedOut = true ∧ s.freed = 1 := by
+  let w : Workload := ⟨.set (.val 42), [[.attach .retire]]⟩
+  let c : Cb := ⟨0, 0, .retire⟩
+  have h0 : Reachable w (init w) := .init
+  have h1 := validator_sound h0 (l := .oLoad 0 (.list [])) (s' := _) rfl
+  have h2 := validator_sound h1 (l := .oCasOk 0) (s' := _) rfl
+  have h3 := validator_sound h2 (l := .fXchg (.list [c])) (s' := _) rfl
+  have h4 := validator_sound h3 (l := .fDec 4) (s' := _) rfl
+  have h5 := validator_sound h4 (l := .fEnter c) (s' := _) rfl
+  have h6 := validator_sound h5 (l := .fDec 3) (s' := _) rfl
+  have h7 := validator_sound h6 (l := .fDec 2) (s' := _) rfl
+  have h8 := validator_sound h7 (l := .rRefLoad c 1) (s' := _) rfl
+  have h9 := validator_sound h8 (l := .rRetire c (some (.val 42)) true 1) (s' := _) rfl
+  exact ⟨_, h9, rfl, rfl, rfl, rfl⟩
 
 end Yaclib.Props.C06
 
